@@ -1261,8 +1261,12 @@ func (pc *PeerConnection) SetRemoteDescription(desc SessionDescription) error {
 
 			kind := NewRTPCodecType(media.MediaName.Media)
 			direction := getPeerDirection(media)
-			if kind == 0 || direction == RTPTransceiverDirectionUnknown {
+			if kind == 0 {
 				continue
+			}
+			if direction == RTPTransceiverDirectionUnknown {
+				// RFC 3264 S5.1: a media section without direction attribute is sendrecv
+				direction = RTPTransceiverDirectionSendrecv
 			}
 
 			transceiver, localTransceivers = findByMid(midValue, localTransceivers)
@@ -3050,8 +3054,12 @@ func (pc *PeerConnection) generateMatchedSDP(
 
 		kind := NewRTPCodecType(media.MediaName.Media)
 		direction := getPeerDirection(media)
-		if kind == 0 || direction == RTPTransceiverDirectionUnknown {
+		if kind == 0 {
 			continue
+		}
+		if direction == RTPTransceiverDirectionUnknown {
+			// RFC 3264 S5.1: a media section without direction attribute is sendrecv
+			direction = RTPTransceiverDirectionSendrecv
 		}
 
 		sdpSemantics := pc.configuration.SDPSemantics
